@@ -1,4 +1,5 @@
-import RsMatterVerif.Lemmas.BtpLink
+import RsMatterVerif.Lemmas.BtpLive
+import RsMatterVerif.Lemmas.BtpRing
 /-!
 # C18 — BTP delivers each message intact, once and in order, or fails cleanly
 
@@ -297,17 +298,299 @@ example : ((runLink (freshLink false false none none)
     (handshakeOps ++ [.send .a [1, 2, 3], .poll .a, .deliver .b, .fetch .b 2048])).b.fetched) =
     [([1, 2, 3], 2048)] := by decide
 
-/-! ## What is not proved -/
+/-! ## Two well-behaved ends never refuse each other (cross-end invariant, from two fresh ends) -/
 
-/-- The full statement of the property on the model: from two fresh ends, under every schedule,
-(1) no operation fails (in particular no `Deliver` is refused), (2) what is fetched at one end is
-a prefix of what was submitted at the other end, (3) an end never has more segments in flight than
-the window. Proved: (2) from every steady state (`in_order_once`), the sender-side form of (3)
-(`emits_only_with_free_slot`), and "never panics" + invariants for every schedule (`link_inv`,
-`link_never_panics`). Not proved: (1), i.e. that sequence numbers, acknowledgements and window
-levels of two well-behaved ends always match (it needs the in-flight accounting
-`level + ack_level + in flight = window` across both queues); the harness checks it on the real
-code (kind `l`: any error between two well-behaved ends is an oracle failure). -/
+theorem phase_fresh (ra rb : Bool) (ga gb : Option Nat) : Phase ra rb ga gb (freshLink ra rb ga gb) := by
+  refine .p0 ⟨rfl, rfl, ?_, ?_, rfl, rfl, rfl, rfl, rfl⟩ rfl rfl rfl rfl rfl
+  all_goals
+    constructor <;> simp [freshLink, freshMon]
+
+/-- **`phase_run`**: after ANY schedule from two fresh ends the link is in one of the handshake
+phases or synchronised (`Phase`), and satisfies the representation invariant (`LInv`). -/
+theorem phase_run (ra rb : Bool) (ga gb : Option Nat) (ops : List Op) (hw : WfSched ops) :
+    LInv (runLink (freshLink ra rb ga gb) ops) ∧ Phase ra rb ga gb (runLink (freshLink ra rb ga gb) ops) := by
+  suffices h : ∀ (ops : List Op) (l : LMon), LInv l → Phase ra rb ga gb l → WfSched ops →
+      LInv (runLink l ops) ∧ Phase ra rb ga gb (runLink l ops) from
+    h ops _ (linv_fresh ra rb ga gb) (phase_fresh ra rb ga gb) hw
+  intro ops
+  induction ops with
+  | nil => intro l hl hp _; exact ⟨hl, hp⟩
+  | cons op ops ih =>
+    intro l hl hp hw
+    have hw' : WfSched ops := fun o h => hw o (List.mem_cons_of_mem _ h)
+    have c := link_step l hl op (hw op List.mem_cons_self)
+    simp only [runLink]
+    rcases phase_step hl hp op with ⟨l', o, h1, h2⟩ | ⟨h1, _⟩
+    · rw [h1] at c ⊢
+      exact ih l' c h2 hw'
+    · rw [h1]
+      exact ih l hl hp hw'
+
+/-- **`never_refused`** (clause 1 of the property between two well-behaved ends): after ANY
+schedule from two fresh ends — every interleaving of `Send | Poll | Deliver | Tick | Fetch` at both
+ends, every GATT MTU / negotiation mode (hence every negotiated segment size and window), across
+sequence-number wrap — the next operation never fails: no `Deliver` is refused (sequence numbers,
+acknowledgements, window levels, flags, lengths and ring-buffer space of the two ends always
+match), no `Poll` or `Fetch` fails. The only error is `Send` refusing an empty or over-long
+message (`InvalidArgument`). -/
+theorem never_refused (ra rb : Bool) (ga gb : Option Nat) (ops : List Op) (hw : WfSched ops) (op : Op) :
+    (∃ l' o, (runLink (freshLink ra rb ga gb) ops).step op = .ok (l', o)) ∨
+    ((runLink (freshLink ra rb ga gb) ops).step op = .error .invalidArgument ∧ ∃ x m, op = .send x m) := by
+  obtain ⟨hl, hp⟩ := phase_run ra rb ga gb ops hw
+  rcases phase_step hl hp op with ⟨l', o, h1, _⟩ | h
+  · exact .inl ⟨l', o, h1⟩
+  · exact .inr h
+
+/-- a `Send` with a message of 1..1232 bytes is never refused either -/
+example : ∃ l' o, (runLink (freshLink false false none none) handshakeOps).step (.send .a [1, 2, 3]) = .ok (l', o) :=
+  ⟨_, _, rfl⟩
+
+/-- **Cross-end form of "never more unacknowledged segments than the peer's window allows"**:
+in every state reachable from two fresh ends in which both ends are established, for each
+direction `x → y`: the segments in flight fit the free slots the peer's receive window really has
+(`level`), and `x`'s count of unacknowledged segments `window − level` = covers the segments in
+flight plus those `y` has received and not yet acknowledged, and never exceeds the window. -/
+theorem window_respected (ra rb : Bool) (ga gb : Option Nat) (ops : List Op) (hw : WfSched ops)
+    (hest : (runLink (freshLink ra rb ga gb) ops).a.e.s.established = true) (x : Side) :
+    let l := runLink (freshLink ra rb ga gb) ops
+    (l.inq x.other).length ≤ (l.get x.other).e.s.recv.level ∧
+    (l.inq x.other).length + (l.get x.other).e.s.recv.ackLevel ≤
+      (l.get x).e.s.windowSize - (l.get x).e.s.send.level ∧
+    (l.get x).e.s.windowSize - (l.get x).e.s.send.level ≤ (l.get x.other).e.s.windowSize := by
+  obtain ⟨_, hp⟩ := phase_run ra rb ga gb ops hw
+  intro l
+  cases hp with
+  | p0 _ sa => rw [sa] at hest; cases hest
+  | p1 _ sa => rw [sa] at hest; cases hest
+  | p2 _ sa => rw [sa] at hest; cases hest
+  | p3 _ h => rw [h.sa] at hest; cases hest
+  | sync h =>
+    have d := (h.dir x).inflight_le
+    rw [(h.ses x).2.1, (h.ses x.other).2.1]
+    exact d
+
+/-- Non-vacuity: after the handshake and three polls with a 60-byte message queued at `b`
+(segment size 20), three segments are in flight towards `a` and `b` counts four unacknowledged
+ones (the handshake response included). -/
+example :
+    let l := runLink (freshLink false false none none)
+      (handshakeOps ++ [.send .b (List.replicate 60 7), .poll .b, .poll .b, .poll .b])
+    l.a.e.s.established = true ∧ (l.inq .a).length = 3 ∧ l.b.e.s.windowSize - l.b.e.s.send.level = 4 := by
+  decide
+
+/-! ## Intact, exactly once, in order — from two fresh ends -/
+
+/-- **`in_order_once_fresh`**: start from two FRESH ends (any GATT MTUs, any negotiation mode: every
+negotiated segment size and window), run ANY schedule — the handshake is part of the schedule,
+messages may be submitted before it completes, the responder may send data behind its response.
+Then at either end the `k`-th fetched message is byte-identical to the `k`-th message submitted at
+the other end (cut to the caller's buffer). Together with `never_refused` (nothing is ever refused,
+so the semantics "a refused Deliver leaves the link unchanged" is never exercised) this is
+"exactly once, unmodified, in order". -/
+theorem in_order_once_fresh (ra rb : Bool) (ga gb : Option Nat) (ops : List Op) (hw : WfSched ops)
+    (y : Side) (k : Nat) (b : List Nat) (c : Nat)
+    (hk : ((runLink (freshLink ra rb ga gb) ops).get y).fetched[k]? = some (b, c)) :
+    ∃ full, ((runLink (freshLink ra rb ga gb) ops).get y.other).submitted[k]? = some full ∧ b = full.take c := by
+  obtain ⟨hl, hp⟩ := phase_run ra rb ga gb ops hw
+  have hnil : ∀ pre : Pre ga gb (runLink (freshLink ra rb ga gb) ops), False := by
+    intro pre
+    cases y
+    · simp only [LMon.get, pre.fA] at hk; cases hk
+    · simp only [LMon.get, pre.fB] at hk; cases hk
+  cases hp with
+  | p0 pre => exact (hnil pre).elim
+  | p1 pre => exact (hnil pre).elim
+  | p2 pre => exact (hnil pre).elim
+  | p3 _ h => exact (hnil h.pre).elim
+  | sync h => exact fetched_is_submitted hl h.st y k b c hk
+
+/-- Non-vacuity: from two fresh ends, `a` submits before the handshake, the handshake runs, the
+segment travels, `b` fetches exactly what was submitted. -/
+example : ((runLink (freshLink false true (some 100) (some 64))
+    ([.send .a [9, 8, 7]] ++ handshakeOps ++ [.poll .a, .deliver .b, .fetch .b 2048])).b.fetched) =
+    [([9, 8, 7], 2048)] := by decide
+
+/-! ## No deadlock (towards delivery under a fair schedule) -/
+
+theorem negWin_ge (ga gb : Option Nat) (rb : Bool) : 6 ≤ negWin ga gb rb := by
+  obtain ⟨m1, m2⟩ := negMtu_bounds ga gb rb
+  obtain ⟨r1, _⟩ := reqWin_bounds ga
+  obtain ⟨w, hw, _, h2⟩ := initialWindowSize_ok (mtu := negMtu ga gb rb) m1
+  unfold initialWindowSize at hw
+  have : ¬ (negMtu ga gb rb = 0) := by omega
+  simp only [this, if_false] at hw
+  have hw' := Except.ok.inj hw
+  have := h2 m2
+  unfold negWin; omega
+
+/-- **`never_dead`**: in every state reachable from two fresh ends it is never the case that both
+send windows are exhausted while no acknowledgement is travelling (the state from which nothing can
+ever be sent again — reachable in the code before the `is_full` fix, `corpus/C18/deadlock.txt`). -/
+theorem never_dead (ra rb : Bool) (ga gb : Option Nat) (ops : List Op) (hw : WfSched ops)
+    (hest : (runLink (freshLink ra rb ga gb) ops).a.e.s.established = true) :
+    ¬ Dead (runLink (freshLink ra rb ga gb) ops) := by
+  obtain ⟨_, hp⟩ := phase_run ra rb ga gb ops hw
+  cases hp with
+  | p0 _ sa => rw [sa] at hest; cases hest
+  | p1 _ sa => rw [sa] at hest; cases hest
+  | p2 _ sa => rw [sa] at hest; cases hest
+  | p3 _ h => rw [h.sa] at hest; cases hest
+  | sync h => exact h.nodead
+
+/-- **`never_stuck`** (absence of deadlock): in every state reachable from two fresh ends by ANY
+schedule, if an end has a message waiting to be sent then the link is not stuck: a segment is
+waiting to be delivered (and `Deliver` never fails, `never_refused`), or a complete message is
+waiting to be fetched, or the pump of one end emits a segment — polled now or, at the latest,
+`n` seconds from now when the peer's acknowledgement timer has fired. Under a schedule that keeps
+draining the queues, fetching, and polling after the timers, something therefore always moves. -/
+theorem never_stuck (ra rb : Bool) (ga gb : Option Nat) (ops : List Op) (hw : WfSched ops) (x : Side)
+    (hx : ((runLink (freshLink ra rb ga gb) ops).get x).e.sdu ≠ []) :
+    let l := runLink (freshLink ra rb ga gb) ops
+    (∃ y, l.inq y ≠ []) ∨ (∃ y, 0 < (l.get y).e.s.recv.msgCt) ∨
+    (∃ y n e' seg, (l.get y).e.processOutgoing (l.now + n) = .ok (e', seg) ∧ seg ≠ []) := by
+  obtain ⟨hl, hp⟩ := phase_run ra rb ga gb ops hw
+  intro l
+  have hne : ∀ p : List Nat, handshakeHdr.encode ++ p ≠ [] := by
+    intro p h0
+    have := hsLen p
+    rw [h0] at this; simp at this
+  cases hp with
+  | p0 pre sa =>
+    -- the initiator's pump emits the handshake request
+    right; right
+    refine ⟨.a, 0, { l.a.e with s := initSent ra }, reqBytes ga, ?_, hne _⟩
+    have h1 : l.a.e.s.prepTxHandshake l.a.e.gattMtu (l.now + 0) = .ok (initSent ra, reqBytes ga) := by
+      rw [sa, pre.gA, prepTxHandshake_init]
+    show l.a.e.processOutgoing (l.now + 0) = _
+    unfold End.processOutgoing
+    rw [h1]
+    simp only [reqBytes, hsLen, if_true]
+  | p1 _ _ _ qab =>
+    left; exact ⟨.b, by show l.qab ≠ []; rw [qab]; simp⟩
+  | p2 pre _ sb =>
+    -- the responder's pump emits the handshake response
+    right; right
+    have hpar := negPar ga gb rb
+    have h1 := prepTxHandshake_resp rb l.b.e.gattMtu (negMtu ga gb rb) (negWin ga gb rb) (l.now + 0) hpar.w1
+    rw [← sb] at h1
+    refine ⟨.b, 0, { l.b.e with s := { l.b.e.s with send := { windowSize := negWin ga gb rb, level := negWin ga gb rb - 1, lastSent := 0, sentAt := some (l.now + 0) }, handshakePending := false } }, respBytes (negMtu ga gb rb) (negWin ga gb rb), ?_, hne _⟩
+    show l.b.e.processOutgoing (l.now + 0) = _
+    unfold End.processOutgoing
+    rw [h1]
+    simp only [respBytes, hsLen, if_true]
+    rfl
+  | p3 dq h =>
+    left; exact ⟨.a, by show l.qba ≠ []; rw [h.qba]; simp⟩
+  | sync h =>
+    exact sync_enabled hl h (by have := negWin_ge ga gb rb; omega) x hx
+
+/-- Non-vacuity of `never_stuck` / `never_dead`: a message waiting at `a` before the handshake (the
+pump of `a` then emits the request), and an established link. -/
+example : ((runLink (freshLink false false none none) [.send .a [1]]).get .a).e.sdu ≠ [] := by decide
+example : (runLink (freshLink false false none none) handshakeOps).a.e.s.established = true := by decide
+
+/-- The former deadlock (`corpus/C18/deadlock.txt`: window 6, both ends fill their send windows
+while the applications are slow) on the fixed model: once the applications have fetched and the
+acknowledgement timers have fired, everything that was submitted arrives and both send windows
+re-open. -/
+def deadlockSchedule : List Op := handshakeOps ++ [
+  .send .a [1], .poll .a, .deliver .b, .send .b [2], .poll .b, .deliver .a,
+  .send .a [3], .poll .a, .send .a [4], .poll .a, .send .a [5], .poll .a, .send .a [6], .poll .a,
+  .send .a [7], .poll .a,
+  .send .b [0x12], .poll .b, .send .b [0x13], .poll .b, .send .b [0x14], .poll .b, .send .b [0x15], .poll .b,
+  .deliver .a, .deliver .a, .deliver .a, .deliver .a, .deliver .b, .deliver .b, .deliver .b, .deliver .b, .deliver .b,
+  .fetch .a 100, .fetch .a 100, .fetch .a 100, .fetch .a 100, .fetch .a 100,
+  .fetch .b 100, .fetch .b 100, .fetch .b 100, .fetch .b 100, .fetch .b 100, .fetch .b 100,
+  .tick 15, .poll .a, .poll .b, .deliver .a, .deliver .b, .poll .a, .poll .b, .deliver .a, .deliver .b,
+  .fetch .a 100, .fetch .b 100]
+
+example :
+    let l := runLink (freshLink false false (some 247) (some 247)) deadlockSchedule
+    l.a.e.s.windowSize = 6 ∧ l.b.fetched.map (·.1) = l.a.submitted ∧ l.a.fetched.map (·.1) = l.b.submitted ∧
+    l.a.submitted.length = 6 ∧ l.b.submitted.length = 5 ∧ l.a.e.s.send.level = 5 ∧ l.b.e.s.send.level = 5 := by
+  decide
+
+/-- **Delivery under a fair schedule** (liveness), stated: for every schedule `ops` from two fresh
+ends and every message accepted by `send` at `x` (index `k` of `submitted`), every *fair*
+continuation eventually lets the other end fetch it — where a continuation `f : Nat → Op` is fair
+if every queue is drained (`deliver y` occurs infinitely often for both `y`), every pump runs after
+the acknowledgement timers have fired (`tick 15` followed by `poll y` infinitely often) and the
+applications fetch (`fetch y cap` with `cap ≥ 1232` infinitely often).
+Proved towards it: nothing is ever refused (`never_refused`), what is fetched is what was submitted
+in order (`in_order_once_fresh`), the link is never stuck (`never_stuck`, `never_dead`).
+Not proved: the well-founded measure that turns "something always moves" into "the message
+arrives" (it has to bound the acknowledgement ping-pong that BTP uses as keep-alive). -/
+def C18_live : Prop :=
+  ∀ (ra rb : Bool) (ga gb : Option Nat) (ops : List Op) (f : Nat → Op), WfSched ops → (∀ i, WfOp (f i)) →
+    (∀ y i, ∃ j ≥ i, f j = .deliver y) →
+    (∀ y i, ∃ j ≥ i, f j = .tick 15 ∧ f (j + 1) = .poll y) →
+    (∀ y i, ∃ j ≥ i, f j = .fetch y 1232) →
+    ∀ (x : Side) (k : Nat), k < ((runLink (freshLink ra rb ga gb) ops).get x).submitted.length →
+      ∃ n, k < ((runLink (freshLink ra rb ga gb) (ops ++ (List.range n).map f)).get x.other).fetched.length
+
+/-- **`C18_live_partial`** — what is proved of `C18_live`: in every state reachable from two fresh
+ends by any schedule, (1) every scheduler operation succeeds (except `send` of an empty / over-long
+message), so a fair continuation is never cut short by an error; (2) whenever a message is waiting
+to be sent, a `deliver`, a `fetch` or — at the latest `n` seconds later — a `poll` does something;
+(3) what has been fetched so far is a prefix of what was submitted. Missing for `C18_live`: a
+well-founded measure showing that these moves eventually carry the message across. -/
+theorem C18_live_partial (ra rb : Bool) (ga gb : Option Nat) (ops : List Op) (hw : WfSched ops) :
+    let l := runLink (freshLink ra rb ga gb) ops
+    (∀ op, (∃ l' o, l.step op = .ok (l', o)) ∨ (l.step op = .error .invalidArgument ∧ ∃ x m, op = .send x m)) ∧
+    (∀ x, (l.get x).e.sdu ≠ [] →
+      (∃ y, l.inq y ≠ []) ∨ (∃ y, 0 < (l.get y).e.s.recv.msgCt) ∨
+      (∃ y n e' seg, (l.get y).e.processOutgoing (l.now + n) = .ok (e', seg) ∧ seg ≠ [])) ∧
+    (∀ (y : Side) (k : Nat) (b : List Nat) (c : Nat), (l.get y).fetched[k]? = some (b, c) →
+      ∃ full : List Nat, (l.get y.other).submitted[k]? = some full ∧ b = full.take c) :=
+  ⟨never_refused ra rb ga gb ops hw, never_stuck ra rb ga gb ops hw, in_order_once_fresh ra rb ga gb ops hw⟩
+
+/-! ## The ring buffer: the real index arithmetic refines the byte queue of the session model -/
+
+/-- **`RingBuf<N>` (model of the real `start` / `end` / `non_empty` arithmetic of
+`utils/storage/ringbuf.rs`, `Model/BtpRing.lean`) refines the bounded byte FIFO**: for every
+capacity `N > 0` and every sequence of `push` (any length, dropping the oldest bytes on overflow) /
+`pop` / `push_byte` / `pop_byte` / `clear`, the bytes handed out and `len`, `free`, `is_full`,
+`is_empty` are those of the byte queue, however often the indices wrap. -/
+theorem ringbuf_refines_queue (n : Nat) (hn : 0 < n) (ops : List RingOp) :
+    Ring.run (Ring.new n) ops = Ring.qRun n [] ops :=
+  Ring.ring_refines_queue n hn ops
+
+/-- the byte-list ring of the session model (`Model/Btp.lean`) *is* that byte queue with
+`N = MAX_MESSAGE_SIZE` … -/
+theorem session_ring_is_queue (buf data : List Nat) :
+    ringPush buf data = qPush maxMessageSize buf data ∧ ringFree buf = maxMessageSize - buf.length :=
+  ⟨rfl, rfl⟩
+
+/-- … so a real `RingBuf<MAX_MESSAGE_SIZE>` that represents the session's byte list `buf` behaves
+exactly as the session model assumes: `push` gives `ringPush`, `free()` gives `ringFree`, `pop(k)`
+hands out `buf.take k` and leaves `buf.drop k` (the two length bytes, the payload and the skipped
+rest of `RecvWindow::fetch_message` are such pops). -/
+theorem session_ring_ops (r : Ring) (buf : List Nat) (h : Ring.Rep maxMessageSize r buf) (data : List Nat) (k : Nat) :
+    Ring.Rep maxMessageSize (r.push data) (ringPush buf data) ∧
+    r.free = ringFree buf ∧
+    (r.pop k).2 = buf.take k ∧ Ring.Rep maxMessageSize (r.pop k).1 (buf.drop k) := by
+  obtain ⟨hi, hn, hq⟩ := h
+  obtain ⟨a, b, c⟩ := Ring.push_spec hi data
+  obtain ⟨d, e, f, g⟩ := Ring.pop_spec hi k
+  refine ⟨⟨a, b.trans hn, by rw [c, hn, hq]; rfl⟩, ?_, by rw [f, hq], ⟨d, e.trans hn, by rw [g, hq]⟩⟩
+  unfold Ring.free ringFree
+  rw [hn, ← hq, Ring.contents_length]
+
+/-- Non-vacuity of `session_ring_ops`: the fresh ring represents the empty byte list. -/
+example : Ring.Rep maxMessageSize (Ring.new maxMessageSize) [] := Ring.rep_new _ (by decide)
+
+/-- Non-vacuity / a wrap-around sample: capacity 4, push 3, pop 2, push 3 (wraps), pop 4. -/
+example : Ring.run (Ring.new 4) [.push [1, 2, 3], .pop 2, .push [4, 5, 6], .pop 4] =
+    [⟨[], 3, 1, false, false⟩, ⟨[1, 2], 1, 3, false, false⟩, ⟨[], 4, 0, true, false⟩,
+     ⟨[3, 4, 5, 6], 0, 4, false, true⟩] := by decide
+
+/-! ## The full statement -/
+
+/-- The full safety statement of the property on the model: from two fresh ends, under every
+schedule, (1) no operation fails — in particular no `Deliver` is refused — except `Send` refusing
+an empty / over-long message, (2) what is fetched at one end is a prefix of what was submitted at
+the other end, (3) once both ends are established an end never has more segments in flight than
+the peer's receive window has free slots, and never more unacknowledged segments than the window. -/
 def C18_full : Prop :=
   ∀ (ra rb : Bool) (ga gb : Option Nat) (ops : List Op), WfSched ops →
     (∀ op, WfOp op → ∀ e, (runLink (freshLink ra rb ga gb) ops).step op ≠ .error e ∨
@@ -315,6 +598,26 @@ def C18_full : Prop :=
     (∀ (y : Side) (k : Nat) (b : List Nat) (c : Nat),
         ((runLink (freshLink ra rb ga gb) ops).get y).fetched[k]? = some (b, c) →
         ∃ full, ((runLink (freshLink ra rb ga gb) ops).get y.other).submitted[k]? = some full ∧
-          b = full.take c)
+          b = full.take c) ∧
+    ((runLink (freshLink ra rb ga gb) ops).a.e.s.established = true → ∀ x : Side,
+        ((runLink (freshLink ra rb ga gb) ops).inq x.other).length ≤
+          ((runLink (freshLink ra rb ga gb) ops).get x.other).e.s.recv.level ∧
+        ((runLink (freshLink ra rb ga gb) ops).get x).e.s.windowSize -
+          ((runLink (freshLink ra rb ga gb) ops).get x).e.s.send.level ≤
+          ((runLink (freshLink ra rb ga gb) ops).get x.other).e.s.windowSize)
+
+/-- **`C18_full` holds.** -/
+theorem C18_full_holds : C18_full := by
+  intro ra rb ga gb ops hw
+  refine ⟨?_, in_order_once_fresh ra rb ga gb ops hw, ?_⟩
+  · intro op _ e
+    rcases never_refused ra rb ga gb ops hw op with ⟨l', o, h⟩ | ⟨h, _⟩
+    · left; rw [h]; intro h2; cases h2
+    · by_cases he : e = .invalidArgument
+      · right; exact he
+      · left; rw [h]; intro h2; exact he (Except.error.inj h2).symm
+  · intro hest x
+    have := window_respected ra rb ga gb ops hw hest x
+    exact ⟨this.1, this.2.2⟩
 
 end C18
